@@ -5,7 +5,7 @@
 From Coq Require Import List Arith Permutation ZArith.
 From Coq Require Import Sorted.
 From TLV Require Import Base.Shape Base.PyList Base.Tensor Model.Base Model.BaseExt
-  Proofs.BaseProofs Proofs.BaseProofs2 Proofs.BaseProofs3 Proofs.BaseProofs4 Proofs.BaseProofs5 Proofs.BaseProofs6 Proofs.BaseProofs7.
+  Proofs.BaseProofs Proofs.BaseProofs2 Proofs.BaseProofs3 Proofs.BaseProofs4 Proofs.BaseProofs5 Proofs.BaseProofs6 Proofs.BaseProofs7 Proofs.BaseProofs8.
 Import ListNotations.
 
 Theorem C01_fold_unfold : forall (A : Type) (d : A) (t : tensor A) (m : nat),
@@ -250,6 +250,88 @@ Theorem C01_matricize_ok_iff : forall (A : Type) (d : A) (t : tensor A) (rows co
   (length (rows ++ cols) = ndim t /\ NoDup (rows ++ cols) /\ (forall k, In k (rows ++ cols) -> k < ndim t)).
 Proof. exact @matricize_ok_iff. Qed.
 Print Assumptions C01_matricize_ok_iff.
+
+(* ---------- output shapes with no in-bounds hypothesis (tensors with size-0 modes included), and the target index of
+   every layout equation is in bounds of the result (review r5, 1.1 / 1.2) ---------- *)
+Theorem C01_unfold_shape : forall (A : Type) (d : A) (t u : tensor A) (m : nat),
+  unfold d t m = Ok u -> shape u = [nth m (shape t) 0; prod (remove_nth m (shape t))].
+Proof. exact @unfold_shape. Qed.
+Print Assumptions C01_unfold_shape.
+
+Theorem C01_unfold_target_in_bounds : forall (A : Type) (d : A) (t u : tensor A) (m : nat) (idx : list nat),
+  unfold d t m = Ok u -> inb (shape t) idx ->
+  inb (shape u) [nth m idx 0; ravel (remove_nth m (shape t)) (remove_nth m idx)].
+Proof. exact @unfold_target_in_bounds. Qed.
+Print Assumptions C01_unfold_target_in_bounds.
+
+Theorem C01_vec_shape : forall (A : Type) (t v : tensor A),
+  tensor_to_vec t = Ok v -> shape v = [prod (shape t)] /\ data v = data t.
+Proof. exact @vec_shape. Qed.
+Print Assumptions C01_vec_shape.
+
+Theorem C01_vec_target_in_bounds : forall (A : Type) (t v : tensor A) (idx : list nat),
+  tensor_to_vec t = Ok v -> inb (shape t) idx -> inb (shape v) [ravel (shape t) idx].
+Proof. exact @vec_target_in_bounds. Qed.
+Print Assumptions C01_vec_target_in_bounds.
+
+Theorem C01_matricize_shape : forall (A : Type) (d : A) (t u : tensor A) (rows : list nat) (cols : option (list nat)),
+  matricize d t rows cols = Ok u ->
+  let cs := match cols with Some c => c | None => complement (ndim t) rows end in
+  shape u = [prod (permute 0 rows (shape t)); prod (permute 0 cs (shape t))].
+Proof. exact @matricize_shape. Qed.
+Print Assumptions C01_matricize_shape.
+
+Theorem C01_matricize_target_in_bounds : forall (A : Type) (d : A) (t u : tensor A) (rows cols idx : list nat),
+  matricize d t rows (Some cols) = Ok u -> inb (shape t) idx ->
+  inb (shape u) [ravel (permute 0 rows (shape t)) (permute 0 rows idx); ravel (permute 0 cols (shape t)) (permute 0 cols idx)].
+Proof. exact @matricize_target_in_bounds. Qed.
+Print Assumptions C01_matricize_target_in_bounds.
+
+Theorem C01_partial_unfold_shape : forall (A : Type) (d : A) (t u : tensor A) (m sb se : nat) (rav : bool),
+  sb + m + se < ndim t -> partial_unfold d t m sb se rav = Ok u ->
+  let s := shape t in
+  let mids := firstn (length s - sb - se) (skipn sb s) in
+  shape u = firstn sb s ++ (if rav then [nth m mids 0 * prod (remove_nth m mids)]
+                            else [nth m mids 0; prod (remove_nth m mids)]) ++ lastn se s.
+Proof. exact @partial_unfold_shape. Qed.
+Print Assumptions C01_partial_unfold_shape.
+
+Theorem C01_partial_unfold_target_in_bounds : forall (A : Type) (d : A) (t u : tensor A) (m sb se : nat) (rav : bool) (L M T : list nat),
+  sb + m + se < ndim t -> partial_unfold d t m sb se rav = Ok u ->
+  length L = sb -> length T = se -> inb (shape t) (L ++ M ++ T) ->
+  let s := shape t in
+  let mids := firstn (length s - sb - se) (skipn sb s) in
+  let rs := remove_nth m mids in let im := nth m M 0 in let ri := remove_nth m M in
+  inb (shape u) (L ++ (if rav then [im * prod rs + ravel rs ri] else [im; ravel rs ri]) ++ T).
+Proof. exact @partial_unfold_target_in_bounds. Qed.
+Print Assumptions C01_partial_unfold_target_in_bounds.
+
+Theorem C01_partial_tensor_to_vec_shape : forall (A : Type) (d : A) (t u : tensor A) (sb se : nat),
+  sb + se < ndim t -> partial_tensor_to_vec d t sb se = Ok u ->
+  let s := shape t in
+  shape u = firstn sb s ++ [prod (firstn (length s - sb - se) (skipn sb s))] ++ lastn se s.
+Proof. exact @partial_tensor_to_vec_shape. Qed.
+Print Assumptions C01_partial_tensor_to_vec_shape.
+
+Theorem C01_partial_tensor_to_vec_target_in_bounds : forall (A : Type) (d : A) (t u : tensor A) (sb se : nat) (L M T : list nat),
+  sb + se < ndim t -> partial_tensor_to_vec d t sb se = Ok u ->
+  length L = sb -> length T = se -> inb (shape t) (L ++ M ++ T) ->
+  let s := shape t in
+  inb (shape u) (L ++ [ravel (firstn (length s - sb - se) (skipn sb s)) M] ++ T).
+Proof. exact @partial_tensor_to_vec_target_in_bounds. Qed.
+Print Assumptions C01_partial_tensor_to_vec_target_in_bounds.
+
+(* the shape theorems are not vacuous on tensors with an empty mode: a 2x0x3 tensor satisfies their hypotheses *)
+Example C01_nonvacuous_empty_shapes :
+  let t := mk [2;0;3] (@nil nat) in
+  1 + 1 + 0 < ndim t /\
+  (exists u, partial_unfold 0 t 1 1 0 false = Ok u /\ shape u = [2;3;0]) /\
+  (exists u, partial_unfold 0 t 0 0 1 true = Ok u /\ shape u = [0;3]) /\
+  (exists u, unfold 0 t 2 = Ok u /\ shape u = [3;0]) /\
+  (exists u, matricize 0 t [2] (Some [0;1]) = Ok u /\ shape u = [3;0]) /\
+  (exists u, tensor_to_vec t = Ok u /\ shape u = [0]) /\
+  (exists u, partial_tensor_to_vec 0 t 1 0 = Ok u /\ shape u = [2;0]).
+Proof. cbv zeta. unfold ndim. cbn [shape]. repeat split; try (vm_compute; auto with arith); eexists; split; vm_compute; reflexivity. Qed.
 
 (* ---------- "no entry is rounded or re-typed": the functions commute with every entry-wise map ---------- *)
 Theorem C01_naturality : forall (A B : Type) (f : A -> B) (d : A) (t : tensor A),
